@@ -242,6 +242,12 @@ func init() {
 		}
 		return true
 	})
+	for _, m := range []string{"Exec", "Ping"} {
+		m := m
+		reg("(*database/sql.DB)."+m, "a statement outside any transaction of the store worker (DDL at start-up, DROP at reset) or closing the handle: may fail; not modelled beyond that", func(x *Exec, st *State, fr *Frame, c *callCtx) bool {
+			return x.finish(st, fr, c, x.symbolicResult(st, c))
+		})
+	}
 	reg("(*database/sql.Tx).Query", "Query evaluates a SELECT; rows are delivered by Next/Scan", func(x *Exec, st *State, fr *Frame, c *callCtx) bool {
 		return x.sqlQuery(st, fr, c)
 	})
